@@ -79,7 +79,8 @@ SPEC = {
             "asc/desc/rot/evenodd)/check/disconnect/follower restart, burst (2-5 changes notified while a live follower's "
             "stream is busy: its Send is parked before it serialises, the others queue up and leave as one message; often the same "
             "region twice with a leader change in between), lrestart (leader process restart: index reloaded from the kv, "
-            "everybody reconnects, a change is broadcast at once), or (c) the malformed stream: hand-made messages on a "
+            "everybody reconnects, a change is broadcast at once), failing follower writes (a follower on its default kv whose "
+            "writes of chosen region keys fail once or persistently during full/incremental sync and broadcasts), or (c) the malformed stream: hand-made messages on a "
             "follower's stream with missing stats, fewer leaders than regions, leader peer id 0, mismatching start index "
             "(correspondence only); non-trivial = (a) records, a wrapped or shifted "
             "window and a RecordsFrom query, (b) a connection that transported regions followed by a comparison of "
@@ -118,6 +119,7 @@ SPEC = {
         "restart_lag_le_flush: no kv.Save of the history index fails (with failing saves the lag is unbounded; the monitor skips the lag check after an injected failure until a persist is seen to succeed)",
         "incremental_sync_follower_eq_leader: the follower equals the leader at its index (a past state of the leader) and at most `capacity` changes were accepted since; a follower whose index fell out of the window (and is not 0) is sent nothing by the code - C16 does not claim convergence for it",
         "the leader's cache is the list model of CheckAndPutRegion (stale check on version/confver, overlap removal); terms are 0",
+        "the next-index statements of the sync theorems assume that no region save fails on the follower (NoFail); failed_save_keeps_cache covers the cache for every failure pattern",
         "each follower connection is quiescent when observed (the harness waits for bindStream and for the follower's index)",
     ],
 }
